@@ -463,7 +463,7 @@ struct Gen {
 				if(P.allow_overlap && rng.chance(1, 3)) { o.db = D; o.b = o.a; }  // same root: overlapping operands become likely
 				if(rng.chance(1, 2)) found = fit_view(o.db, o.b, dv, o.cb, sv);
 				if(!found && !find_view(o.db, o.b, o.kind == O_EASSIGN ? -1 : dv.D, &dv, o.kind == O_EASSIGN, o.cb, sv, 20)) continue;
-				o.var = o.kind == O_VASSIGN_VIEW ? rng.below(6) : rng.below(2);
+				o.var = o.kind == O_VASSIGN_VIEW ? rng.below(6) : o.kind == O_VSWAP ? rng.below(3) : rng.below(2);
 				if(o.kind == O_VASSIGN_VIEW && rng.chance(1, 8) && dv.D >= T.dmin && dv.D <= T.dmax) {  // whole moved array as source
 					for(int i = 0; i < NSLOT; ++i)
 						if(M.at(dv.D, i).alive && !(dv.D == D && i == o.a) && dims_equal(M.at(dv.D, i), dv.D, dv.n)) { o.db = dv.D; o.b = i; o.cb = Chain{}; o.var = 6; }
